@@ -17,6 +17,30 @@ let read_file path =
 let () =
   if Array.length Sys.argv < 3 then (prerr_endline "usage: modelrun <cmd> <file>"; exit 2);
   let cmd = Sys.argv.(1) in
-  let input = explode (read_file Sys.argv.(2)) in
-  let out = Cmds.dispatch cmd input in
-  print_string (implode out)
+  (* commands that judge every case line on its own are fed the case file in chunks of lines, so
+     that a case file of several hundred MB never exists as one char list (24 bytes per char) *)
+  let per_line = (cmd = "subst" || cmd = "subst-corr") in
+  if not per_line then begin
+    let input = explode (read_file Sys.argv.(2)) in
+    let out = Cmds.dispatch cmd input in
+    print_string (implode out)
+  end else begin
+    let ic = open_in_bin Sys.argv.(2) in
+    let buf = Buffer.create (1 lsl 20) in
+    let count = ref 0 in
+    let flush_chunk () =
+      if Buffer.length buf > 0 then begin
+        print_string (implode (Cmds.dispatch cmd (explode (Buffer.contents buf))));
+        Buffer.clear buf; count := 0
+      end in
+    (try
+       while true do
+         let l = input_line ic in
+         Buffer.add_string buf l; Buffer.add_char buf '\n';
+         incr count;
+         if !count >= 500 then flush_chunk ()
+       done
+     with End_of_file -> ());
+    flush_chunk ();
+    close_in ic
+  end
